@@ -102,7 +102,7 @@ Section Eval.
     match toplevel c with
     | Some k => let k' := lvl paren k in
                 (* AND inside AND / OR inside OR without parentheses is one chain: tolerated *)
-                if match p, strip c with XJunc _ a, XJunc _ b => Bool.eqb a b | _, _ => false end then [] else
+                if match p, strip c with XJunc _ a, XJunc (_ :: _ :: _) b => Bool.eqb a b | _, _ => false end then [] else
                 if (if strict then Nat.ltb ko k' else Nat.leb ko k') then [] else [site p side c]
     | None => []
     end.
@@ -148,7 +148,7 @@ Section Eval.
 
   (* ---------------------------------------------------------- verdict *)
   Inductive verdict :=
-  | VOk (covered : bool)
+  | VOk (covered : bool) (s : list string)
   | VMismatch (covered : bool) (composed parsed : string) (s : list string)
   | VReject (covered : bool) (composed : string) (s : list string)     (* the text is not an expression *)
   | VSkip (why : string).
@@ -162,7 +162,7 @@ Section Eval.
         match read_text sql with
         | None => VReject cov (show composed) (sites x)
         | Some parsed =>
-            if String.eqb (show (norm composed)) (show (norm parsed)) then VOk cov
+            if String.eqb (show (norm composed)) (show (norm parsed)) then VOk cov (sites x)
             else VMismatch cov (show composed) (show parsed) (sites x)
         end
     end.
